@@ -2,3 +2,4 @@ import CvProofs.Spec
 import CvProofs.RefBfs
 import CvProofs.Tensor
 import CvProofs.Hash
+import CvProofs.Codec
